@@ -225,6 +225,10 @@ pub fn norm_msg(m: &str) -> String {
 fn norm_loc(l: &str) -> String {
     // "/repo/keyberon/src/layout.rs" -> "keyberon/src/layout.rs"
     let l = l.strip_prefix("/repo/").unwrap_or(l);
+    // background exploration runs work on a snapshot of the repository elsewhere
+    let repo = crate::corpus::repo_dir();
+    let repo = repo.to_string_lossy();
+    let l = l.strip_prefix(repo.as_ref()).map(|r| r.trim_start_matches('/')).unwrap_or(l);
     // registry crates: keep crate dir + file
     if let Some(i) = l.find("/registry/src/") {
         let rest = &l[i + "/registry/src/".len()..];
